@@ -2933,6 +2933,57 @@ func lmCheckNilConfig(c *Ctx, res *lpResolver, tn *lmTaint, f *lpFunc, fn *ssa.F
 					}
 				}
 			}
+			// the type itself is a parameter: judge every call site's argument
+			if p, isP := t.(*ssa.Parameter); isP && p.Parent() == fn && len(tn.callers[fn]) > 0 {
+				idx := paramIndex(p)
+				okAll, reported := true, false
+				for _, ci := range tn.callers[fn] {
+					args := ci.Common().Args
+					if idx >= len(args) || ci.Parent() == fn {
+						okAll = false
+						break
+					}
+					a := ir.ResolveCell(args[idx])
+					caller := ci.Parent()
+					tested := false
+					for _, fc := range ir.FactsAt(ci.Block()) {
+						tv, tnn, ok := ir.NilTest(fc.Cond)
+						if ok && fc.Truth == tnn && (ir.ResolveCell(tv) == a || lmSameCellLoad(caller, ir.ResolveCell(tv), a)) {
+							tested = true
+						}
+					}
+					if tested {
+						continue
+					}
+					ac, isCall := a.(*ssa.Call)
+					if !isCall || !lmIsExt(ac, "reflect.TypeOf") || len(ac.Call.Args) != 1 {
+						okAll = false
+						break
+					}
+					if _, isMI := ac.Call.Args[0].(*ssa.MakeInterface); isMI {
+						continue
+					}
+					fa := lmCfgField(ac.Call.Args[0])
+					if fa == nil {
+						okAll = false
+						break
+					}
+					fname := ir.FieldName(fa.X.Type(), fa.Field)
+					if lmReachableUnderNil(caller, ir.Sym(fa), ci.Block()) {
+						reported = true
+						c.Violation(caller, P.InstrPos(ci), fmt.Sprintf("reflect.New(TypeOf(m.%s)) without m.%s!=nil", fname, fname),
+							fmt.Sprintf("%s passes the type of the configuration field m.%s, which is nil when the user left it unset, to %s, which calls reflect.New on it, and nothing on the path excludes that: LoadMast panics (reflect: New(nil)) instead of returning an error; reachable via %s",
+								ir.FuncName(caller), fname, ir.FuncName(fn), fmtChain(chain)), "chain: "+fmtChain(chain))
+					}
+				}
+				if reported {
+					continue
+				}
+				if okAll {
+					c.OK(pos, what, fmt.Sprintf("the type is a parameter; at each of the %d call sites it is tested against nil, the type of a concrete value, or the type of a configuration field that cannot be nil there", len(tn.callers[fn])), false)
+					continue
+				}
+			}
 			c.Undecided(fn, pos, "reflect.New of an untraced type", "reflect.New on the load path with a type that is neither tested against nil nor the type of a configuration field: whether it can be nil is not decided", "chain: "+fmtChain(chain))
 		}
 	}
@@ -4176,6 +4227,14 @@ func lmJudgeDecoderBranch(P *ir.Program, iff *ssa.If, rej int, purely func(*ssa.
 			return lmDecOK, text, "byte-level malformedness (buffer lengths and decoded integers only): CODECSYM / DECODEBOUNDS"
 		}
 	}
+	// the classification result of a private helper over the link's dynamic type
+	if v, c, w, ok := lmClassifierGuard(iff, rej, conds); ok {
+		return v, c, w
+	}
+	// the exit of a lookup loop over a table of formats, reached when no entry matched
+	if lmFormatLookupMiss(iff, rej) {
+		return lmDecOK, text, "no entry of the format table matched m.nodeFormat: the recorded node format is not a known one"
+	}
 	return lmDecUndecided, "rejecting branch `" + text + "`",
 		"the load path rejects a stored node on a condition that is none of the listed rejections (callee error, failed type assertion, unusable configuration, unknown format, count mismatch between two lists, byte-level malformedness); whether it refuses nodes the writer stored is not decided"
 }
@@ -4488,4 +4547,198 @@ func lmDisj(e *lmBool, pol bool) ([]lmTriple, bool) {
 		return out, true
 	}
 	return nil, false
+}
+
+// ---- ROOTEXACT: sum-type classifiers and table lookups ---------------------------
+
+// lmClassifier describes a private helper that maps its single interface
+// parameter to a constant per dynamic type: for every constant it returns (in
+// result idx), on which kind of path — "typed" (a type assertion succeeded),
+// "nil" (the parameter is nil) or "none" (every assertion failed).
+func lmClassifierOf(call *ssa.Call, idx int) map[int64]map[string]bool {
+	g := ir.Callee(call.Call)
+	if g == nil || g.Blocks == nil || len(g.Params) != 1 || !types.IsInterface(g.Params[0].Type()) {
+		return nil
+	}
+	for _, b := range g.Blocks {
+		for _, ins := range b.Instrs {
+			switch ins.(type) {
+			case *ssa.Call, *ssa.Store, *ssa.Go, *ssa.Defer, *ssa.Panic:
+				return nil
+			}
+		}
+	}
+	out := map[int64]map[string]bool{}
+	for _, r := range ir.Returns(g) {
+		if idx >= len(r.Results) {
+			return nil
+		}
+		n, ok := lmConstInt(r.Results[idx])
+		if !ok {
+			return nil
+		}
+		kind := "none"
+		for _, fc := range ir.FactsAt(r.Block()) {
+			if ex, ok := fc.Cond.(*ssa.Extract); ok {
+				if ta, ok := ex.Tuple.(*ssa.TypeAssert); ok && ta.CommaOk && ex.Index == 1 && ta.X == ssa.Value(g.Params[0]) {
+					if fc.Truth {
+						kind = "typed"
+					}
+					continue
+				}
+			}
+			if tv, tnn, ok := ir.NilTest(fc.Cond); ok && tv == ssa.Value(g.Params[0]) {
+				if fc.Truth != tnn {
+					kind = "nil"
+				}
+				continue
+			}
+			return nil // branches on something else: not a pure classifier
+		}
+		if out[n] == nil {
+			out[n] = map[string]bool{}
+		}
+		out[n][kind] = true
+	}
+	return out
+}
+
+// lmFormOf: v is component idx of a classifier call.
+func lmFormOf(v ssa.Value) (*ssa.Call, int, bool) {
+	ex, ok := ir.ResolveCell(v).(*ssa.Extract)
+	if !ok {
+		if call, ok := ir.ResolveCell(v).(*ssa.Call); ok && call.Call.Signature().Results().Len() == 1 {
+			return call, 0, true
+		}
+		return nil, 0, false
+	}
+	call, ok := ex.Tuple.(*ssa.Call)
+	return call, ex.Index, ok
+}
+
+// lmClassifierGuard judges a rejection guarded by comparisons of a
+// classifier's result with constants: the forms it rejects must be exactly
+// those the classifier returns when no type assertion succeeded (or for nil),
+// and — in the load primitive — every such form must be rejected.
+func lmClassifierGuard(iff *ssa.If, rej int, conds []ssa.Value) (int, string, string, bool) {
+	type guard struct {
+		op token.Token
+		c  int64
+	}
+	var call *ssa.Call
+	idx := 0
+	var guards []guard
+	b := iff.Block()
+	add := func(cond ssa.Value, truth bool) bool {
+		for {
+			u, ok := cond.(*ssa.UnOp)
+			if !ok || u.Op != token.NOT {
+				break
+			}
+			truth = !truth
+			cond = u.X
+		}
+		bin, ok := cond.(*ssa.BinOp)
+		if !ok || (bin.Op != token.EQL && bin.Op != token.NEQ) {
+			return false
+		}
+		x, y := bin.X, bin.Y
+		if _, isC := lmConstInt(x); isC {
+			x, y = y, x
+		}
+		n, isC := lmConstInt(y)
+		cl, i, isF := lmFormOf(x)
+		if !isC || !isF || (call != nil && (cl != call || i != idx)) {
+			return false
+		}
+		call, idx = cl, i
+		op := bin.Op
+		if !truth {
+			op = lpNegOp(op)
+		}
+		guards = append(guards, guard{op, n})
+		return true
+	}
+	if !add(iff.Cond, rej == 0) {
+		return 0, "", "", false
+	}
+	for _, fc := range ir.FactsAt(b) {
+		add(fc.Cond, fc.Truth)
+	}
+	_ = conds
+	forms := lmClassifierOf(call, idx)
+	if forms == nil {
+		return 0, "", "", false
+	}
+	text := lpDescCond(iff.Cond, rej == 0)
+	rejected := map[int64]bool{}
+	for c := range forms {
+		ok := true
+		for _, g := range guards {
+			if (g.op == token.EQL) != (c == g.c) {
+				ok = false
+			}
+		}
+		if ok {
+			rejected[c] = true
+		}
+	}
+	hname := lpCallName(&call.Call)
+	for c := range rejected {
+		if forms[c]["typed"] {
+			return lmDecViolation, "rejects a known link form: " + text,
+				fmt.Sprintf("the rejection taken when `%s` also covers form %d, which %s returns for a link of a known dynamic type: a legal link is refused", text, c, hname), true
+		}
+	}
+	for c, kinds := range forms {
+		if kinds["none"] && !rejected[c] {
+			return lmDecViolation, "accepts an unknown link type: " + text,
+				fmt.Sprintf("%s returns form %d for a link that is none of the known types, and the rejection taken when `%s` does not cover it: a value that is not a link is treated as one", hname, c, text), true
+		}
+	}
+	return lmDecOK, text, "the forms rejected are exactly those " + hname + " returns when the link is nil or none of the known types", true
+}
+
+// lmFormatLookupMiss: the rejecting edge is the exit of a counting loop over a
+// slice in whose body the only branches compare m.nodeFormat with something
+// (an entry's format) and leave with a result.
+func lmFormatLookupMiss(iff *ssa.If, rej int) bool {
+	hdr := iff.Block()
+	bin, ok := iff.Cond.(*ssa.BinOp)
+	if !ok || bin.Op != token.LSS || rej != 1 {
+		return false
+	}
+	if _, _, okc := lmCounterMin(bin.X); !okc {
+		return false
+	}
+	if _, _, okl := lmLenPlus(bin.Y); !okl {
+		return false
+	}
+	found := false
+	for _, blk := range hdr.Parent().Blocks {
+		if blk == hdr || !hdr.Dominates(blk) || !ir.CanReach(blk, hdr) || len(blk.Instrs) == 0 {
+			continue
+		}
+		in, ok := blk.Instrs[len(blk.Instrs)-1].(*ssa.If)
+		if !ok {
+			continue
+		}
+		cmp, ok := in.Cond.(*ssa.BinOp)
+		if !ok || (cmp.Op != token.EQL && cmp.Op != token.NEQ) {
+			return false
+		}
+		isFmt := false
+		for _, side := range []ssa.Value{cmp.X, cmp.Y} {
+			if u, ok := ir.ResolveCell(side).(*ssa.UnOp); ok && u.Op == token.MUL {
+				if fa, ok := u.X.(*ssa.FieldAddr); ok && lpIsMastPtr(fa.X.Type()) && ir.FieldName(fa.X.Type(), fa.Field) == "nodeFormat" {
+					isFmt = true
+				}
+			}
+		}
+		if !isFmt {
+			return false
+		}
+		found = true
+	}
+	return found
 }
